@@ -384,20 +384,7 @@ func runC16(c *core.Ctx) {
 				cs.Fail("xr-chunk/accessors", core.W{"chunk": fmt.Sprintf("%04x", w), "type": ch.Type(), "value": ch.Value(), "run_type": rt, "run_type_error": errStr(rerr)})
 				return
 			}
-			s := ch.String()
-			var wantS string
-			switch wantType {
-			case rtcp.RunLengthChunkType:
-				wantS = fmt.Sprintf("[RunLength type=%d, length=%d]", w>>14&1, w&0x3FFF)
-			case rtcp.BitVectorChunkType:
-				wantS = fmt.Sprintf("[BitVector 0b%015b]", w&0x7FFF)
-			default:
-				wantS = "[TerminatingNull]"
-			}
-			if s != wantS {
-				cs.Fail("xr-chunk/string", core.W{"chunk": fmt.Sprintf("%04x", w), "string": s, "expected": wantS})
-				return
-			}
+			_ = ch.String() // totality of String() is C17's; its format is not part of any property
 		}
 		cs.Eval(4 << 8)
 		cs.DistinctN(1 << 8)
